@@ -17,7 +17,8 @@ def c14(tier):
     ]
 
 def c02(tier):
-    return [
+    return [mint_h('VHarnessMintTokensWrap', 'mint: PAID quote, exactly 4 outputs over {1, 2^61, 2^62} (64-bit wrap-around of the total)', must_reach=('wrap-accepted', 'wrap-rejected')),
+            
         mint_h('VHarnessSwapC02', 'swap: <= 2 inputs, <= 2 outputs; 1+1+1 arbitrary rows', must_reach=('swap-accepted', 'swap-rejected')),
         mint_h('VHarnessMeltQuoteC02', 'melt quote: real invoice < 2^50 msat or garbage, optional MPP, 1 mint quote + 1 melt quote arbitrary rows', must_reach=('melt-quote-accepted', 'melt-quote-refused')),
         mint_h('VHarnessMeltC02', 'melt: 1..2 genuine inputs, quote amount/reserve/MPP symbolic (< 2^50), backend script <= 2 answers', must_reach=('payment-attempted', 'melt-no-payment')),
@@ -42,13 +43,15 @@ def c01(tier):
     return [
         mint_h('VHarnessRaceSwapSwap', '2 concurrent swaps of the same genuine proof, schedule symbolic at storage-call granularity, <= 2 pre-emptions', sched=True, must_reach=('joined', 'one-honoured')),
         mint_h('VHarnessRaceSwapMelt', 'swap and melt of the same genuine proof concurrently, schedule symbolic, <= 2 pre-emptions', sched=True, must_reach=('joined', 'one-honoured')),mint_h('VHarnessSwapC01', 'swap: <= 2 inputs, <= 1 output, every field free; 2 proofs + 1 pending + 1 blind_signatures arbitrary rows',
-                   must_reach=('swap-accepted', 'swap-rejected'))]
+                   must_reach=('swap-accepted', 'swap-rejected')),
+        mint_h('VHarnessMeltC05', 'melt + 1 poll with a scripted backend (<= 3 answers): the inputs of a melt whose payment may still settle stay locked - released only after a definitive failure (else they could be spent a second time)', must_reach=('poll-1',))]
 
 def c03(tier):
     return [
         mint_h('VHarnessRaceMintMint', '2 concurrent mint requests with different outputs on one PAID quote, schedule symbolic, <= 2 pre-emptions', sched=True, must_reach=('joined',)),
         mint_h('VHarnessRaceMintWatcher', 'mint request + real invoice watcher (checkInvoicePaid) + second mint request, schedule symbolic, <= 2 pre-emptions', sched=True, must_reach=('joined',)),mint_h('VHarnessMintTokensC03', 'mint: quote in any state, optional NUT-20 lock, <= 2 free outputs, 6 signature variants, 1 arbitrary blind_signatures row',
-                   must_reach=('mint-accepted', 'mint-rejected'))]
+                   must_reach=('mint-accepted', 'mint-rejected')),
+        mint_h('VHarnessMintTokensWrap', 'mint: PAID unlocked quote of arbitrary amount, exactly 4 well-formed outputs over the denominations {1, 2^61, 2^62} (totals up to 2^64: 64-bit wrap-around)', must_reach=('wrap-accepted', 'wrap-rejected'))]
 
 def c06(tier):
     kw = dict(panic_mode='obligation')
@@ -99,7 +102,7 @@ def c12(tier):
           n11_h('VHarnessSigAllPosition', '1..3 inputs, each plain / SIG_INPUTS / SIG_ALL', must_reach=('checked',))]
     hs.append(mint_h('VHarnessSigAllSwapP2PK', 'mint swap/melt with a SIG_ALL P2PK input (n_sigs <= 1, <= 1 co-signer), optionally behind a plain input; outputs signed by the helper / unsigned / signed by a foreign key', summaries=('h2c', 'nut10'), must_reach=('helpers-accepted', 'unsigned-rejected')))
     if tier == 'thorough':
-        hs.append(n11_h('VHarnessP2PKSoundWide', 'as VHarnessP2PKSound with n_sigs 0..4, 0..3 co-signers, 0..2 refund keys, 0..4 signatures', must_reach=('accepted', 'rejected'), timeout_s=3000))
+        hs.append(n11_h('VHarnessP2PKSoundWide', 'as VHarnessP2PKSound with n_sigs 0..3, 0..2 co-signers, 0..2 refund keys, 0..3 signatures', must_reach=('accepted', 'rejected'), timeout_s=3000))
     return hs
 def n14_h(name, bounds, **kw):
     kw.setdefault('summaries', ('nut10',))
@@ -110,7 +113,7 @@ def c13(tier):
           n14_h('VHarnessHTLCComplete', 'canonical witness of AddWitnessHTLC for every lock with n_sigs <= 1, 0..2 listed keys, before the locktime', must_reach=('canonical-accepted',))]
     hs.append(mint_h('VHarnessSigAllSwapHTLC', 'mint swap/melt with a SIG_ALL HTLC input (n_sigs = 1, 1 listed key), optionally behind a plain input; outputs carry the helper witness / none / a foreign signature', summaries=('h2c', 'nut10'), must_reach=('helpers-accepted', 'unsigned-rejected')))
     if tier == 'thorough':
-        hs.append(n14_h('VHarnessHTLCSoundWide', 'as VHarnessHTLCSound with n_sigs 0..3, 0..3 keys, 0..2 refund keys, 0..3 signatures', must_reach=('accepted', 'rejected'), timeout_s=3000))
+        hs.append(n14_h('VHarnessHTLCSoundWide', 'as VHarnessHTLCSound with n_sigs 0..2, 0..2 keys, 0..2 refund keys, 0..2 signatures', must_reach=('accepted', 'rejected'), timeout_s=3000))
     return hs
 P2PK_ASSUME = COMMON_ASSUME + [
     'Schnorr signatures as a term algebra: a signature verifies iff it was made by that key over that hash (unforgeability assumed); distinct (key, hash, nonce) give distinct signatures',
@@ -144,22 +147,23 @@ def c18(tier):
                w_h('VHarnessSendWide', 'Send end to end: 1..3 proofs of 2^0..2^4', must_reach=('sent',), timeout_s=3000)]
     return hs
 def c19(tier):
-    return [w_h('VHarnessWalletReceive', 'receive a token of the own mint: 1..2 proofs of 2^0..2^3, ppk in {0,100,1000}, stored counter symbolic < 2^30', must_reach=('received', 'receive-failed')),
+    return [w_h('VHarnessWalletCrashRestore', 'holding one deterministic proof of 8 (ppk 100): send 1..2 (fees included, through a swap) killed before any one of its storage or HTTP calls (position symbolic) or not at all; then restore from the mnemonic into an empty store; both keysets scanned', sched=True, must_reach=('struck', 'not-struck', 'restored-after-crash'), summaries=('h2c', 'dleq', 'padd-inj'), timeout_s=1800),
+            w_h('VHarnessWalletReceive', 'receive a token of the own mint: 1..2 proofs of 2^0..2^3, ppk in {0,100,1000}, stored counter symbolic < 2^30', must_reach=('received', 'receive-failed')),
             w_h('VHarnessWalletMint', 'mint tokens: stored counter symbolic (< 2^30), quote amount 1..11, mint signs or refuses', must_reach=('minted', 'mint-failed')),
-            w_h('VHarnessWalletMintThenSend', 'mint 8 then send 1..8 through a swap', must_reach=('sent',)),
+            w_h('VHarnessWalletMintThenSend', 'holding one deterministic proof of 8: send 1..5 through a swap, fees included or not, ppk in {0,100,1000}', must_reach=('sent',)),
             w_h('VHarnessRestoreDense', 'restore from the mnemonic: the first three 100-output batches each hold a signed output; both keysets scanned; blinded messages of distinct (secret, r) pairs assumed distinct', must_reach=('restored',), summaries=('h2c', 'dleq', 'padd-inj'), timeout_s=1800),
             w_h('VHarnessRestore', 'restore from the mnemonic: signed pattern over the first 4 batches of 100 outputs (2^4 patterns), both keysets scanned; blinded messages of distinct (secret, r) pairs assumed distinct', must_reach=('restored',), summaries=('h2c', 'dleq', 'padd-inj'), timeout_s=1800)]
 def c08(tier):
     return [w_h('VHarnessWalletReceive', 'receive a token of the own mint: 1..2 proofs of 2^0..2^3, ppk in {0,100,1000}, stored counter symbolic < 2^30', must_reach=('received', 'receive-failed')),
             w_h('VHarnessWalletMint', 'mint tokens', must_reach=('minted',)),
-            w_h('VHarnessWalletMintThenSend', 'mint (proofs stored with DLEQ e,s,r) then send through a swap', must_reach=('sent',)),
+            w_h('VHarnessWalletMintThenSend', 'holding one deterministic proof of 8 (stored with DLEQ e,s,r): send 1..5 through a swap', must_reach=('sent',)),
             w_h('VHarnessWalletMelt', 'melt: 1..2 held proofs with/without stored DLEQ data, each payment outcome', must_reach=('melt-outcome-0',))]
 def c17(tier):
     return [w_h('VHarnessWalletReceive', 'receive a token of the own mint: 1..2 proofs of 2^0..2^3, ppk in {0,100,1000}, stored counter symbolic < 2^30', must_reach=('received', 'receive-failed')),
             w_h('VHarnessWalletReclaim', 'reclaim / remove-spent: 1..2 pending proofs of 2^0..2^2, each handed out or locked in a melt, each UNSPENT / SPENT / PENDING at the mint, ppk in {0,1000}', must_reach=('reconciled-0', 'reconciled-1')),
             w_h('VHarnessWalletMelt', 'melt: 1..2 held proofs of 2^0..2^3, amount 1..8, reserve 0..2, ppk in {0,100,1000}, outcome paid/pending/failed, pending then settled either way', must_reach=('melt-outcome-0', 'melt-outcome-1', 'melt-outcome-2', 'melt-resolved')),
             w_h('VHarnessWalletMint', 'mint tokens', must_reach=('minted',)),
-            w_h('VHarnessWalletMintThenSend', 'mint then send through a swap', must_reach=('sent',))]
+            w_h('VHarnessWalletMintThenSend', 'holding one deterministic proof of 8: send 1..5 through a swap', must_reach=('sent',))]
 def c20(tier):
     kw = dict(models=MINT_MODELS + ('http',))
     return [mint_h('VHarnessServerSwap', 'POST /v1/swap handler with hand-built JSON: 1 input (genuine or arbitrary), 1 arbitrary output, 1 arbitrary spent row; replay and two near-replays', must_reach=('swap-200', 'swap-refused'), **kw),
